@@ -31,6 +31,7 @@ def zeroC (ck : List String) (h : MVal K) : MVal K := fun k i => if ck.contains 
 /-- is the real operator a (likelihood) `EnergyOperator` instance (decides Constant*Energy*Operator) -/
 def Ex.isLH : Ex K → Bool
   | .gauss _ _ _ => true
+  | .varcov _ _ _ => true
   | .scale _ a => a.isLH
   | .add a b => a.isLH && b.isLH
   | .chain f _ => f.isLH
@@ -64,6 +65,8 @@ def pe (ck : List String) (cs : MVal K) : Ex K → Ex K
   | .quad d a => collapse ck cs (.quad d a) (.quad d (pe ck cs a))
   | .gauss data icov a => collapse ck cs (.gauss data icov a) (.gauss data icov (pe ck cs a))
   | .const en d v => .const en d v
+  | .bil m na nb T a b => collapse ck cs (.bil m na nb T a b) (.bil m na nb T (pe ck cs a) (pe ck cs b))
+  | .varcov n a b => collapse ck cs (.varcov n a b) (.varcov n (pe ck cs a) (pe ck cs b))
 
 /-- `op(Linearization.make_partial_var(ρ, ck, wm))`: `Operator.__call__` prepends the block-diagonal 0/1 Jacobian -/
 def linPartial (e : Ex K) (ρ : MVal K) (ck : List String) (wm : Bool) : Lz K :=
